@@ -56,8 +56,11 @@ def helper(kind):
     want = {"git": ("git",), "diff3": ("diff3", "diff"), "builtin": ()}[kind]
     for name in want:
         dst = os.path.join(d, name)
-        if _REAL.get(name) and not os.path.exists(dst):
-            os.symlink(_REAL[name], dst)
+        if _REAL.get(name) and not os.path.lexists(dst):
+            try:
+                os.symlink(_REAL[name], dst)
+            except FileExistsError:      # another worker process was faster
+                pass
     old = os.environ.get("PATH", "")
     os.environ["PATH"] = d
     try:
